@@ -12,21 +12,19 @@ Proof. vm_compute. reflexivity. Qed.
 Lemma vars_safe : forallb var_ok var_facts = true /\ var_facts <> [].
 Proof. split; [vm_compute; reflexivity|discriminate]. Qed.
 
-(* the known shared-configuration call sites that remain (see notes/C17.md) *)
-Definition known_shared : list string :=
-  ["security.SecurityManager.ClientHandshake"; "security.SecurityManager.ServerHandshake"].
+(* every call site of security.NewAuthenticator in the library passes a
+   per-connection copy; the client, server and SecurityManager sites are
+   required to be present (non-vacuity) *)
+Definition site_private (fn : string) : bool :=
+  existsb (fun s => String.eqb (as_fn s) fn && private s) auth_sites.
 
-Lemma config_private_partial :
-  forallb (fun s => private s || existsb (String.eqb (as_fn s)) known_shared) auth_sites = true /\
-  existsb (fun s => String.eqb (as_fn s) "client.ConnectAndAuthenticateWithConfig" && private s) auth_sites = true /\
-  existsb (fun s => String.eqb (as_fn s) "server.Server.ServeConn" && private s) auth_sites = true.
+Lemma config_private :
+  forallb private auth_sites = true /\
+  site_private "client.ConnectAndAuthenticateWithConfig" = true /\
+  site_private "server.Server.ServeConn" = true /\
+  site_private "security.SecurityManager.ClientHandshake" = true /\
+  site_private "security.SecurityManager.ServerHandshake" = true.
 Proof. vm_compute. auto. Qed.
-
-Lemma config_private_refuted : exists s, In s auth_sites /\ private s = false.
-Proof.
-  exists (mk_as "security.SecurityManager.ClientHandshake" "sm.config" CfgShared).
-  split; [vm_compute; tauto|reflexivity].
-Qed.
 
 Lemma broker_serialised : forallb broker_ok broker_io = true /\
   existsb (fun b => match bf_origin b with SField => String.eqb (bf_callee b) "WriteControlAd" | _ => false end) broker_io = true.
